@@ -39,8 +39,8 @@ def cases_from_vectors(ctx, limit):
     return [V.mkcase("vec%d" % k, v["unlock"], v["lock"], v["flags"], "vector") for k, v in enumerate(vs)]
 
 
-FAMILIES_QUICK = ["unary", "shift", "flow4", "nonmin", "binary", "two2", "locktime", "uflow4", "wide", "alias"]
-FAMILIES_THOROUGH = ["unary", "shift", "flow5", "nonmin", "binary", "ternary", "two3", "locktime", "uflow4", "wide", "alias"]
+FAMILIES_QUICK = ["unary", "shift", "flow4", "nonmin", "binary", "two2", "locktime", "uflow4", "wide", "alias", "alias2", "deadpush"]
+FAMILIES_THOROUGH = ["unary", "shift", "flow5", "nonmin", "binary", "ternary", "two3", "locktime", "uflow4", "wide", "alias", "alias2", "deadpush"]
 
 
 def cases_from_model(ctx, per_family):
